@@ -101,6 +101,7 @@ func init() {
 	families["C02"] = &rt.Family{Prop: "C02", Module: "MC_C02", PackSize: 1, Judge: "value",
 		More: []rt.Extra{
 			{Module: "MC_C03"}, {Module: "MC_C04"}, {Module: "MC_C08"}, {Module: "MC_C09"},
+			{Module: "MC_C11", Frac: frac(0.15, 1)}, {Module: "MC_C15", ExtraCfg: tierCfg, Frac: frac(0.03, 0.1)},
 			{Module: "MC_C06", ExtraCfg: maxStr(2, 3), Frac: frac(0.5, 1)},
 			{Module: "MC_C07", ExtraCfg: tierCfg, Frac: frac(0.25, 1)},
 			{Module: "MC_C05", Frac: frac(0.02, 0.25)},
@@ -112,7 +113,7 @@ func init() {
 	families["C19"] = &rt.Family{Prop: "C19", Module: "MC_C02", PackSize: 1,
 		More: []rt.Extra{
 			{Module: "MC_C03", Frac: frac(0.5, 1)}, {Module: "MC_C04", Frac: frac(0.25, 1)}, {Module: "MC_C08", Frac: frac(0.1, 0.5)},
-			{Module: "MC_C09"}, {Module: "MC_C06", ExtraCfg: maxStr(1, 2), Frac: frac(0.2, 1)},
+			{Module: "MC_C09"}, {Module: "MC_C11", Frac: frac(0.15, 1)}, {Module: "MC_C06", ExtraCfg: maxStr(1, 2), Frac: frac(0.2, 1)},
 			{Module: "MC_C07", ExtraCfg: tierCfg, Frac: frac(0.08, 0.5)}, {Module: "MC_C05", Frac: frac(0.005, 0.05)},
 		},
 		Rule: "programs = units of the C02-C09 families generated with --extra-imports; calls = for every document of every unit: UnmarshalJSON called directly and UnmarshalYAML via yaml.v3, each with a zero destination and with a destination previously decoded from a sibling document; plus malformed input for the first two documents (every prefix, trailing garbage, doubled document, invalid UTF-8, nesting depth 10001, lone tokens). distinct_nontrivial = calls that returned an error (the all-or-nothing clause is exercised)"}
@@ -126,6 +127,17 @@ func init() {
 			{Module: "MC_C07", ExtraCfg: tierCfg, Frac: frac(0.1, 0.5)}, {Module: "MC_C05", Frac: frac(0.01, 0.1)},
 		},
 		Rule: "programs = units of the C02, C04-C09 families generated with --extra-imports; every document that is valid or whose only faults are required / bound / length / pattern / enum violations (no value of a wrong JSON type) is decoded through UnmarshalJSON, through UnmarshalYAML given the JSON text as flow YAML, and through UnmarshalYAML given block-style YAML; verdicts and reflective dumps of the destination must agree. distinct_nontrivial = distinct in-scope (unit, document) pairs"}
+}
+
+func init() {
+	families["C11"] = &rt.Family{Prop: "C11", Module: "MC_C11", PackSize: 1, JudgeBuild: true,
+		Select: func(units []*rt.Unit, tier string, rng *rand.Rand) []*rt.Unit {
+			if tier == "thorough" {
+				return units
+			}
+			return sample(units, rng, func(u *rt.Unit) bool { return false }, 0.4)
+		},
+		Rule: "units = every ordered list of 1..3 distinct branches out of 7 templates (disjoint / overlapping property sets, same or different keyword on the overlapping property, conflicting type, required-only branch, branch without validator) x {allOf, anyOf} x {inline, all by $ref, first by $ref} (1554 units; quick replays a seeded 40%); documents = all 84 assignments of absent / five integers / wrong type to p, absent / short / long / wrong type to q, absent / boolean / wrong type to r. distinct_nontrivial = distinct (unit, document) pairs with a definite reference verdict"}
 }
 
 func hasMult(u *rt.Unit) bool {
